@@ -40,6 +40,7 @@ import (
 var (
 	ErrDoubleSpent          = errors.New("utxo can not be spent more than once")
 	ErrAlreadyInUnconfirmed = errors.New("this transaction is in unconfirmed state")
+	ErrAlreadyConfirmed     = errors.New("this transaction is already confirmed on the main chain")
 	ErrPreBlockMissMatch    = errors.New("play block failed because pre-hash != latest_block")
 	ErrUnexpected           = errors.New("this is a unexpected error")
 	ErrInvalidAutogenTx     = errors.New("found invalid autogen-tx")
@@ -346,6 +347,13 @@ func (t *State) DoTx(tx *pb.Transaction) error {
 	if len(tx.Blockid) > 0 {
 		t.log.Warn("tx from PostTx must not have blockid", "txid", utils.F(tx.Txid))
 		return ErrUnexpected
+	}
+	// a transaction the main chain already holds must not become pending again: when its inputs
+	// are still current (it only reads keys, or has no inputs) nothing else refuses it, the miner
+	// packs it a second time and every node refuses that block as duplicated
+	if t.sctx.Ledger.IsTxInTrunk(tx.Txid) {
+		t.log.Debug("tx from PostTx is already confirmed", "txid", utils.F(tx.Txid))
+		return ErrAlreadyConfirmed
 	}
 	return t.doTxSync(tx)
 }
